@@ -90,7 +90,7 @@ def generate(rng, tier):
         lengths = list(range(0, 131, 1 if rng.random() < 2 else 3))
         big = [65535, 65536]
     else:
-        big = list(range(65530, 65541)) + [rng.randrange(65541, 1 << 20) for _ in range(6)] + [1 << 20]
+        big = [65530, 65534, 65535, 65536, 65537, 65540] + [rng.randrange(65541, 300000) for _ in range(2)] + [1 << 20]
     # structured stream: build, then parse what was built followed by a tail
     combos = [(a, b) for a in range(16) for b in (False, True)]
     k = 0
